@@ -213,3 +213,37 @@ package logger
 //@   // the pooled buffer is given back only after that write has happened (nobody else can be filling it while
 //@   // the line is being written)
 //@   at "pool.Put(b)" assert ioWrites == old(ioWrites) + 1
+
+//@ // ---- C20: the format string is cut into items rune by rune -----------------------------------------------------
+//@ // text between two fields is printed verbatim: every item is the string of exactly the runes the lexer consumed for
+//@ // it, the lexer consumes at least one rune of a non-empty rest, and the rest shrinks (termination)
+//@ func lex
+//@   props C20
+//@   assigns nothing
+//@   ensures nopanic
+//@   ensures len(s) > 0 ==> 0 < n && n <= len(s)
+//@   // states: 0 start, 1 text, 2 dollar, 3 field, 4 dot, 5 header - how many runes each needs behind it
+//@   loop 1 invariant 0 <= state && state <= 5 && (rangeindex < 0 ==> state == 0) && (rangeindex >= 0 ==> state != 0)
+//@   loop 1 invariant (state == 3 ==> rangeindex >= 1) && (state == 4 ==> rangeindex >= 2) && (state == 5 ==> rangeindex >= 3)
+//@
+//@ func lex$1
+//@   props C20
+//@   assigns nothing
+//@   ensures nopanic
+//@
+//@ // (that an item of type header is longer than "$header." - the slice in parse - follows from the lexer's states but
+//@ // needs the rune count of a literal, which the string model does not have: parse is not claimed panic-free)
+//@ func parse
+//@   props C20
+//@   assigns *
+//@   loop 1 decreases len(s)
+//@   at "val := string(s[:n])" assert 0 < n && n <= len(s) && val == string(s[:n])
+//@
+//@ // the helpers that wrap a text / a header name into a field
+//@ func parse$1
+//@   trusted
+//@   assigns nothing
+//@
+//@ func parse$2
+//@   trusted
+//@   assigns nothing
